@@ -6,10 +6,15 @@ from .series_props import specs_evals, specs_wiring, specs_product, specs_index,
 def check(tier, seed):
     d = Decision("C12", tier, seed)
     specs = specs_product(tier) + specs_evals(tier) + specs_wiring(tier) + specs_index(tier) + [("contracts.definition_time", "unit_definition_time", {})]
+    # the input-normalisation chain in front of the algorithm: a BlockSeries is used as it is (its cache is the at-most-once guarantee), the
+    # wrappers read the wrapped series at the requested order only
+    from .format_props import specs_keys, specs_blocks, specs_projection
+    specs += specs_keys(tier) + specs_blocks(tier) + specs_projection(tier)
     d.add_units(fold_canaries(run_units(specs)))
     d.assumptions += [
         "typing assumption of the definition-time check: the BlockSeries-typed variables are those declared in contracts/definition_time.py",
-        "input-normalisation wrappers (_unpack_blocks.op_eval, operator_to_BlockSeries.op_eval, H_eval, postprocessing) read the wrapped series at the requested order only - covered by the footprint obligations only when those units are listed in the evidence",
+        "input-normalisation wrappers (_to_scalar_BlockSeries, _unpack_blocks.op_eval, operator_to_BlockSeries.op_eval) are under contract in this run: a BlockSeries input is used directly "
+        "(obligation BlockSeries-used-directly), the wrappers read the wrapped series through its cache at the requested order only; H_eval / postprocessing of the second-quantized path: C07",
     ]
     d.explanation = ("Footprint obligations at every series read: product_by_order requests factors only at orders 0 <= m <= n (componentwise) "
                      "and only when the complementary element is not known to vanish; every generated evaluator reads other series only at the "
